@@ -27,6 +27,7 @@ def install(B):
 
     for n in ("Int", "Real", "Bool", "Str"):
         B._B[n] = Shape(n.lower())
+    B._B["Bytes"] = Shape("bytes")
     reg("Record", lambda ip, a, k: Shape("record", a[0], **k))
     reg("Opaque", lambda ip, a, k: Shape("opaque", a[0]))
     reg("Optional_", lambda ip, a, k: Shape("opt", a[0]))
@@ -38,6 +39,7 @@ def install(B):
     reg("OneOf", lambda ip, a, k: Shape("oneof", *a))
     reg("IntRange", lambda ip, a, k: Shape("intrange", a[0], a[1]))
     reg("Enum", lambda ip, a, k: Shape("enum", a[0]))
+    reg("ClassOf", lambda ip, a, k: Shape("class", a[0]))
     reg("contract", lambda ip, a, k: I.PyFn("contract-deco", lambda ip2, a2, k2: a2[0]))
     reg("lemma", lambda ip, a, k: I.PyFn("lemma-deco", lambda ip2, a2, k2: a2[0]))
 
@@ -153,8 +155,14 @@ class Maker:
             v = self.const(name, "int", idx)
             self._side(z3.And(v >= sh.a[0], v <= sh.a[1]), idx)
             return Sym(v, "int")
+        if k == "bytes":
+            v = self.const(name + ".nbytes", "int", idx)
+            self.side.append(v >= 0) if idx is None else None
+            return SizedV(v if idx is not None else v)
         if k == "const":
             return sh.a[0]
+        if k == "class":
+            return resolve_class(ip, sh.a[0])
         if k == "opaque":
             return Opaque(self.const(name, usort(sh.a[0]), idx), sh.a[0])
         if k == "opt":
@@ -288,6 +296,9 @@ def to_json(v, model, max_seq=8):
         return {"__enum__": v.cls.qualname, "name": v.name}
     if isinstance(v, ExcV):
         return {"__exc__": v.cls_name}
+    if isinstance(v, SizedV):
+        n = model.eval(v.n, model_completion=True)
+        return {"__bytes__": n.as_long() if z3.is_int_value(n) else 0}
     if isinstance(v, OpaqueStr):
         return "<str>"
     if isinstance(v, I.ClassV):
